@@ -54,6 +54,9 @@ pub fn pairs(ctx: &mut Ctx, depth: usize) {
                 let e = pair::fill(&shape, f);
                 for kept in [false, true] {
                     for frame in 0..4 {
+                        // quick tier, depth 3: four of the eight placements (every frame kind once, kept in
+                        // two of them and discarded in the other two); depth 2 and the thorough tier: all eight
+                        if depth >= 3 && ctx.quick() && (frame % 2 == 0) != kept { continue }
                         let prog = pair::in_frame(&e, kept, frame);
                         let j = semantic_case(ctx, "U-PAIR", &prog);
                         ctx.count("programs", 1);
